@@ -944,6 +944,9 @@ func (a *actor) exec(st *Step, idx int) bool {
 			}
 			if bytes.Contains(r.body, []byte(`"SHUTDOWN"`)) {
 				switch {
+				case st.OnShut == "poll":
+					// ignore the event but keep polling: a second SHUTDOWN event would show up in the trace
+					continue
 				case st.OnShut == "ignore":
 					<-a.ctx.Done()
 					return false
